@@ -346,6 +346,11 @@ pub fn craft(w: &Rc<World>, _node: usize, kind: &str, spoof_p: Option<u32>, a: i
             hb.extend((d as u32).to_le_bytes());
             m.extend(submessage(0x07, 0x01, &hb));
         }
+        "spdp" => {
+            // a foreign participant that announces discovery readers at locators of an arbitrary kind / port:
+            // the receiver will try to send its endpoint announcements there
+            return Some(crate::hostile::spdp_datagram_ex(90 + (d.rem_euclid(5)) as u32, 1 + c.rem_euclid(3), Some(0), None, 20_000_000_000, a as i32, b as u32, 0x0000_0c3f));
+        }
         "plist" => {
             // a discovery DATA whose parameter list has a parameter with a hostile length / string length
             let mut pl: Vec<u8> = vec![0x00, 0x03, 0x00, 0x00];
